@@ -47,6 +47,8 @@ def cases(tier, rng):
         kind = cards.pick(rng, cfg["kinds"])
         if fam == "pos" and cfg["theory"]["PTO"] == 3:
             kind = cards.pick(rng, ["F2", "FL"])  # the only kinds with fl11 diagrams
+        elif rng.random() < 0.15:
+            kind = cards.pick(rng, ["XSHERANC", "XSHERACC", "XSCHORUSCC", "F1", "FW"])  # cross sections are linear in the SFs
         if rng.random() < 0.4:
             cfg["obs"]["TargetDIS"] = cards.pick(rng, ["neutron", "isoscalar", "iron", {"Z": float(rng.uniform(0, 3)), "A": 3.0}])
         pts = cards.rand_points(rng, g["xgrid"], n=2, q2lo=3.0, q2hi=3e3)
@@ -61,7 +63,7 @@ def run_case(case):
     th = cards.theory(**case["theory"])
     g = case["grid"]
     kind, fam = case["kind"], case["fam"]
-    pts = [dict(x=p["x"], Q2=p["Q2"]) for p in case["points"]]
+    pts = [dict(x=p["x"], Q2=p["Q2"], **({"y": 0.41} if kind in cards.XSS else {})) for p in case["points"]]
     viol, nontrivial = [], set()
     compared = 0
     margin = 0.0
